@@ -26,7 +26,10 @@ RULE = (
     "superposition circuits judged against the shots a recording runner delivered, direct calls of the "
     "non-measured/split helpers, exact expectation values of random circuits (18 gate kinds, <=5 qubits) with "
     "general Pauli operators, per-task symbol binding; every (task, term) has its own dyadic coefficient so a "
-    "misplaced result is visible; constant operators come as term, one-term sum, un-simplified multi-term sum, "
+    "misplaced result is visible; in about half of the random lists tasks are ALIASED the way real lists are (groups of "
+    "tasks holding the same circuit object, the same operator object, being one and the same task object, or equal "
+    "separately built copies; for bind also one dict object as the map of several tasks, and a second call on the same "
+    "task objects after the map dicts were changed in place); constant operators come as term, one-term sum, un-simplified multi-term sum, "
     "empty sum and zero; basis-state circuits are shuffled X/I/XX patterns at least as wide as the operator; "
     "shots 1-50; a case is non-trivial when its list mixes at least two task kinds (for exact/bind: >=2 tasks "
     "with distinct circuits/maps); distinct = distinct canonical case strings"
@@ -251,7 +254,19 @@ def _post_avg(mon, call):
             mon.note("constant-form:" + ("empty" if not v.terms else v.form))
     if len(set(kinds)) >= 2:
         mon.note("mixed-kind-list-judged")
+    _note_aliasing(mon, "avg", tasks)
     mon.ok(name)
+
+
+def _note_aliasing(mon, tag, tasks):
+    """tallies for the evidence: which kinds of object sharing the judged lists contained"""
+    if len({id(t) for t in tasks}) < len(tasks):
+        mon.note(f"{tag}:list-repeats-a-task-object")
+    distinct = list({id(t): t for t in tasks}.values())
+    if len({id(t.circuit) for t in distinct}) < len(distinct):
+        mon.note(f"{tag}:tasks-share-a-circuit-object")
+    if len({id(t.operator) for t in distinct}) < len(distinct):
+        mon.note(f"{tag}:tasks-share-an-operator-object")
 
 
 def _post_split(mon, call):
@@ -372,6 +387,7 @@ def _post_exact(mon, call):
             return
     if any(o in "XY" for _n, _ops, terms in specs for ops, _c in terms for _q, o in ops):
         mon.note("exact:non-diagonal-operator")
+    _note_aliasing(mon, "exact", tasks)
     mon.ok(name)
 
 
@@ -453,6 +469,14 @@ def _post_bind(mon, call):
                     return
     if len(tasks) >= 2:
         mon.note("bind:>=2-tasks-judged")
+    _note_aliasing(mon, "bind", tasks)
+    if len({id(m) for m in maps}) < len(maps):
+        mon.note("bind:maps-share-a-dict-object")
+    for i in range(len(tasks)):
+        used = {s for _nm, _q, ps in pre[i][0][1] for p in ps for s in sympy.sympify(p).free_symbols}
+        if any(tasks[j].circuit is tasks[i].circuit and any(maps[j].get(s) != maps[i].get(s) for s in used) for j in range(i)):
+            mon.note("bind:one-circuit-object-bound-with-differing-maps")
+            break
     mon.ok(name)
 
 
@@ -521,6 +545,9 @@ def run_case(ctx):
         else:
             kinds = rng.choices(G.KINDS, weights=[3, 1, 1], k=rng.randint(1, 6))
         specs = [G.make_task(rng, k, i, scale, basis=(cls != "superposition" or rng.random() < 0.3)) for i, k in enumerate(kinds)]
+        if cls != "kinds_exh" and rng.random() < 0.5:
+            G.alias_specs(rng, specs)
+            kinds = [t["kind"] for t in specs]
         make, rdesc = _runner(rng, recording=True if cls == "superposition" else None)
         perm = None
         if cls == "random_long":
@@ -528,7 +555,7 @@ def run_case(ctx):
             rng.shuffle(perm)
         ctx.describe(f"avg {rdesc} " + " ".join(G.task_str(t) for t in specs) + (f" perm={perm}" if perm else ""),
                      _mix(kinds) if cls != "superposition" else any(t["kind"] == "measured" and G.basis_bits(t["circ"]) is None for t in specs))
-        tasks = [G.build_task(t) for t in specs]
+        tasks = G.build_tasks(specs)
         try:
             res = EST.estimate_expectation_values_by_averaging(make(), tasks)
         except Exception:
@@ -555,11 +582,15 @@ def run_case(ctx):
         n2 = rng.randint(0, 8)
         kinds2 = [rng.choice(G.KINDS) for _ in range(n2)]
         specs2 = [G.make_task(rng, k, i, scale) for i, k in enumerate(kinds2)]
+        if rng.random() < 0.5:
+            G.alias_specs(rng, specs)  # never turns a non-measured task into a measurable one
+            G.alias_specs(rng, specs2)
+            kinds = [t["kind"] for t in specs]
         forms = {t["op"]["form"] for t in specs if t["kind"] == "constant"}
         ctx.describe("non_measured " + " ".join(G.task_str(t) for t in specs) + " | split " + " ".join(G.task_str(t) for t in specs2),
                      _mix(kinds) and bool(forms & {"unsimplified", "empty"}))
-        tasks = [G.build_task(t) for t in specs]
-        tasks2 = [G.build_task(t) for t in specs2]
+        tasks = G.build_tasks(specs)
+        tasks2 = G.build_tasks(specs2)
         try:
             EST.evaluate_non_measured_estimation_tasks(tasks)
         except Exception:
@@ -580,8 +611,14 @@ def run_case(ctx):
             op = G.rand_pauli_op(rng, width, i, scale) if rng.random() < 0.8 else G.rand_ising_op(rng, width, i, scale)
             circ = G.rand_circ(rng, G.op_width(op)) if rng.random() < 0.85 else G.rand_basis_circ(rng, G.op_width(op))
             specs.append({"kind": "exact", "op": op, "circ": circ, "shots": rng.choice([None, 0, 10])})
+        if rng.random() < 0.5:
+            G.alias_specs(rng, specs)
         rk = rng.choice(["symbolic", "symbolic", "default", "partial", "recording"])
-        ctx.describe(f"exact {rk} " + " ".join(G.task_str(t) for t in specs),
+        again = None
+        if n >= 2 and rng.random() < 0.3:  # a second call of the same runner on the same task objects, reordered
+            again = list(range(n))
+            rng.shuffle(again)
+        ctx.describe(f"exact {rk} " + " ".join(G.task_str(t) for t in specs) + (f" again={again}" if again else ""),
                      n >= 2 and any(o in "XY" for t in specs for ops, _c in t["op"]["terms"] for _q, o in ops))
         _Echo, Partial, DefaultSim = R.classes()
         if rk == "symbolic":
@@ -592,9 +629,11 @@ def run_case(ctx):
             runner = Partial(rng.choice([R.NATIVE_SETS["rot"], R.NATIVE_SETS["x-cnot"], R.NATIVE_SETS["none"]]))
         else:
             runner = G.RecordingRunner(SymbolicSimulator())
-        tasks = [G.build_task(t) for t in specs]
+        tasks = G.build_tasks(specs)
         try:
             EST.calculate_exact_expectation_values(runner, tasks)
+            if again:
+                EST.calculate_exact_expectation_values(runner, [tasks[p] for p in again])
         except Exception:
             pass
         return
@@ -625,6 +664,16 @@ def run_case(ctx):
                 m["unused_sym"] = 1.5
             maps.append(m)
             mdesc.append("{" + ",".join(f"{k}:{v}" for k, v in m.items()) + "}")
+        if rng.random() < 0.6:
+            G.alias_specs(rng, specs)
+        msrc = list(range(n))  # msrc[i] = j < i: task i's map IS the dict object of task j
+        if n >= 2 and rng.random() < 0.3:
+            for i in range(1, n):
+                if rng.random() < 0.4:
+                    msrc[i] = msrc[rng.randrange(i)]
+                    maps[i] = maps[msrc[i]]
+                    mdesc[i] = mdesc[msrc[i]] + f"@m{msrc[i]}"
+        shift = rng.choice([None, None, 0.5, -1]) if any(maps) else None  # second call after changing the dicts in place
 
         def cstr(c):
             return "[%dq:%s]" % (c["n"], " ".join(
@@ -633,12 +682,18 @@ def run_case(ctx):
 
         shared = [nm for nm in names if len({str(m.get(nm)) for m in maps if nm in m}) >= 2]
         ctx.describe("bind " + " ".join(f"{t['kind'][0].upper()}({G.op_str(t['op'])},{cstr(t['circ'])},{t['shots']})<-{md}"
-                                        for t, md in zip(specs, mdesc)), n >= 2 and bool(shared))
+                                        for t, md in zip(specs, mdesc)) + (f" again+{shift}" if shift else ""), n >= 2 and bool(shared))
         symbols["unused_sym"] = sympy.Symbol("unused_sym")
-        tasks = [G.build_task(t, symbols) for t in specs]
+        tasks = G.build_tasks(specs, symbols)
         lib_maps = [{symbols[k]: v for k, v in m.items()} for m in maps]
+        lib_maps = [lib_maps[j] for j in msrc]
         try:
             EST.evaluate_estimation_circuits(tasks, lib_maps)
+            if shift:
+                for j in set(msrc):
+                    for k in lib_maps[j]:
+                        lib_maps[j][k] = lib_maps[j][k] + shift
+                EST.evaluate_estimation_circuits(tasks, lib_maps)
         except Exception:
             pass
         return
